@@ -149,8 +149,25 @@ SPECS.append(FuncSpec('field_states', P, SIG, count=1, csig='void field_states(s
                     (r'\blevel\(\)', 'vx_level', 0, 6), (r'buffer_\.clear\(\);', 'vx_buf_clear();', 1, 1)],
              slice_from=r'case csv_parse_state::before_unquoted_string:\s*\{\s*buffer_\.clear\(\);', slice_to=r'case csv_parse_state::unquoted_string:\s*\{\s*switch \(curr_char\)',
              prologue='switch (state_) {', epilogue='default: break; }'))
+
+# ---- F56: the repeat entry of column_types ("float*") in end_value: an array is closed only when one is open
+RP_C = [
+    ('requires', 'vx_end_arrays == 0 && vx_level >= 0 && vx_level <= 1000000 && vx_ntypes >= 1 && vx_ntypes <= 8 && vx_offset <= SIZE_MAX / 4 && vx_column_index >= vx_offset && vx_column_index - vx_offset < vx_ntypes '
+                 '&& (vx_types[vx_column_index - vx_offset].col_type == csv_column_type_repeat_t ==> (vx_types[vx_column_index - vx_offset].rep_count >= 1 && vx_types[vx_column_index - vx_offset].rep_count <= vx_column_index - vx_offset))'),
+    ('assigns', 'self->more_, vx_offset, vx_depth, vx_level, vx_end_arrays, vx_lists_open'),
+    ('ensures', '[C05] a repeat entry closes an array only when a typed array is open (F56: column_types("float*") with two or more columns delivered an end_array for an array that had never been begun, json_decoder failed an internal assertion)',
+     '(vx_end_arrays <= 1) && (__CPROVER_old(vx_depth) == 0 ==> vx_end_arrays == 0) && vx_level == __CPROVER_old(vx_level) - (int)vx_end_arrays'),
+    ('ensures', '[C05] the repeat entry moves the type index back by its count, which stays inside column_types', 'vx_column_index >= vx_offset && vx_column_index - vx_offset < vx_ntypes'),
+]
+SPECS.append(EnumSpec('csv_column_type', 'include/jsoncons_ext/csv/csv_options.hpp'))
+SPECS.append(FuncSpec('end_value_repeat', P, r'void end_value\(basic_json_visitor<CharT>& visitor,\s*bool infer_types, std::error_code&\s+ec\)', count=1, csig='void end_value_repeat(struct csv_parser* self)', contract=RP_C,
+             aliases=dict(AL, column_index_='vx_column_index', offset_='vx_offset', depth_='vx_depth', cursor_mode_='vx_cursor_mode', mapping_kind_='vx_mapping_kind', mark_level_='vx_mark_level', level_='vx_level'),
+             rules=[(r'csv_column_type::(\w+)', r'csv_column_type_\1', 1, 1), (r'csv_mapping_kind::(\w+)', r'csv_mapping_kind_\1', 0, 2), (r'column_types_\.size\(\)', 'vx_ntypes', 1, 2), (r'column_types_\[', 'vx_types[', 3, 6),
+                    (r'visitor\.end_array\(\*this, ec\);', 'vx_end_arrays++; vx_lists_open--;', 0, 1), (r'\blevel\(\)', 'vx_level', 0, 1)],
+             slice_from=r'if \(column_types_\[column_index_ - offset_\]\.col_type == csv_column_type::repeat_t\)', slice_to=r'if \(depth_ < column_types_\[column_index_ - offset_\]\.level\)'))
 HARNESSES = [
     Harness('field_states', 'h_field_states', enforce='field_states', method='LF', props=['C05', 'C18'], note='program slice of the state switch of parse_some: the thirteen states between two fields; the stack of modes is modelled by its top (a list of sub-fields is only ever pushed on `data`); the state before_unquoted_field_tail1 is in the slice but no state leads to it'),
+    Harness('end_value_repeat', 'h_end_value_repeat', enforce='end_value_repeat', method='LF', props=['C05'], note='program slice of end_value: the block for a repeat entry of column_types; at most 8 type entries'),
     Harness('before_value_data', 'h_before_value_data', enforce='before_value_data', method='LF', props=['C05', 'C18']),
     Harness('m_columns_unquoted', 'h_m_columns_unquoted', enforce='m_columns_unquoted', method='LF', props=['C05', 'C18']),
     Harness('m_columns_quoted', 'h_m_columns_quoted', enforce='m_columns_quoted', method='LF', props=['C05', 'C18']),
